@@ -420,6 +420,54 @@ def annotate(facts, f, sites):
     return defs
 
 
+def _relatives(facts, f):
+    """Functions a piece of f's code can have come from or gone to without changing what it does: the function it is nested in
+    (closure / nested fn -> parent), the closures and nested fns inside it, and the private functions that are only called
+    from it or that it is only called from (Facts.family)."""
+    out = []
+    p = f.get("parent")
+    while p:
+        g = facts.by_path.get(p)
+        if g is None:
+            break
+        out.append(g)
+        p = g.get("parent")
+    out += [c for c in facts.fns.values() if c.get("parent") == f["path"]]
+    try:
+        out += [g for g in facts.family(f) if g["id"] != f["id"]]
+        for g in facts.fns.values():
+            if g["crate"] == f["crate"] and g["id"] != f["id"] and "body" in g and g["kind"] in ("Fn", "AssocFn") and \
+                    any(x["id"] == f["id"] for x in facts.family(g)):
+                out.append(g)
+    except Exception:
+        pass
+    seen, uniq = set(), []
+    for g in out:
+        if g["id"] not in seen:
+            seen.add(g["id"])
+            uniq.append(g)
+    return uniq
+
+
+def _moved_reason(facts, f, s, reasons, all_keys):
+    """The key of a written reason that covers site s after the code moved between f and one of its relatives: same kind of
+    site with the same producer, and the site the reason names no longer exists."""
+    tail = s["key"][len(s["fn"]):]                   # |kind|what<-prod#n
+    base = tail.rsplit("#", 1)[0]
+    cands = []
+    for g in _relatives(facts, f):
+        for k in reasons:
+            if k.startswith(g["path"] + "|") and k[len(g["path"]):].rsplit("#", 1)[0] == base and k not in all_keys:
+                cands.append(k)
+    # a nested function or closure that was inlined into f (and no longer exists), or the reverse
+    for k in reasons:
+        kf = k.split("|", 1)[0]
+        if (kf.startswith(f["path"] + "::") or f["path"].startswith(kf + "::")) and k[len(kf):].rsplit("#", 1)[0] == base and k not in all_keys:
+            cands.append(k)
+    cands = sorted(set(cands))
+    return cands[0] if len(cands) == 1 else None
+
+
 def panic_rule(facts, res, rule, roots, reasons, ctx=None, only_crates=None, skip_unsafe=True):
     """Generic R03-1 / R06-1 / R13-1 rule.  Returns (findings, stats)."""
     from common import Finding
@@ -428,6 +476,16 @@ def panic_rule(facts, res, rule, roots, reasons, ctx=None, only_crates=None, ski
     st = res.rule(rule, instances=0, entry_points=len(roots), reachable_functions=len(reach),
                   auto_discharged=0, reasoned=0)
     used_reasons = set()
+    # every site key that exists in the tree (reachable or not): a reason is only carried over to a moved site when the site
+    # it was written for is gone
+    all_keys = set()
+    for g in facts.fns.values():
+        if g.get("derived") or "mir" not in g:
+            continue
+        ss = sites_of(facts, g)
+        if ss:
+            annotate(facts, g, ss)
+            all_keys |= {x["key"] for x in ss}
     for fid in sorted(reach, key=lambda i: facts.fns[i]["path"]):
         f = facts.fns[fid]
         if f.get("derived"):
@@ -452,6 +510,14 @@ def panic_rule(facts, res, rule, roots, reasons, ctx=None, only_crates=None, ski
                 st["reasoned"] += 1
                 used_reasons.add(s["key"])
                 res.oblige(1, True)
+                continue
+            moved = _moved_reason(facts, f, s, reasons, all_keys)
+            if moved:
+                st["reasoned"] += 1
+                st["reasons_carried_over"] = st.get("reasons_carried_over", 0) + 1
+                used_reasons.add(moved)
+                res.oblige(1, True)
+                res.sample({"rule": rule, "site": s["key"], "verdict": "reasoned", "carried_over_from": moved}, limit=12)
                 continue
             res.oblige(1, False)
             chain = facts.path_to(parent, fid)
